@@ -12,7 +12,11 @@ import (
 	"hzcheck/esp"
 )
 
-func init() { register("C12", c12Const, c12Index, c12Loop, c12Assembly, c12AbortFirst) }
+func init() {
+	register("C12", c12Const, c12Index, c12Loop, c12Assembly, c12AbortFirst,
+		// the chain starts at handler 0 only if the context starts at its rest index
+		c09Ctor, c12Fresh)
+}
 
 const pkgRoute = Mod + "/pkg/route"
 
